@@ -138,6 +138,8 @@ def derives_patternwise(t, param):
         return derives_patternwise(t[1], param)
     if t[0] == "cmp" and t[1] == "!=" and is_const(t[3], 0):
         return derives_patternwise(t[2], param)
+    if t[0] == "method" and t[2] == "astype" and t[3] and isinstance(t[1], tuple) and t[1][0] == "cmp":
+        return derives_patternwise(t[1], param)         # a boolean pattern cast to any numeric type keeps the pattern
     if t[0] == "phi":
         return derives_patternwise(t[2], param) and derives_patternwise(t[3], param)
     return False
